@@ -744,6 +744,16 @@ let rec forallb f = function
 | [] -> true
 | a :: l0 -> (&&) (f a) (forallb f l0)
 
+(** val combine : 'a1 list -> 'a2 list -> ('a1 * 'a2) list **)
+
+let rec combine l l' =
+  match l with
+  | [] -> []
+  | x :: tl ->
+    (match l' with
+     | [] -> []
+     | y :: tl' -> (x, y) :: (combine tl tl'))
+
 (** val firstn : nat -> 'a1 list -> 'a1 list **)
 
 let rec firstn n l =
@@ -1401,8 +1411,8 @@ let gip_raises order d velocity =
 
 (** val make_incompressible_raises : z list -> bool **)
 
-let make_incompressible_raises field =
-  negb (Z.eqb (nth O field Z0) (Z.of_nat (length (skipn (S O) field))))
+let make_incompressible_raises field0 =
+  negb (Z.eqb (nth O field0 Z0) (Z.of_nat (length (skipn (S O) field0))))
 
 (** val ifft_raises : z -> bool -> bool -> z list -> bool **)
 
@@ -1545,7 +1555,7 @@ let laplace_sym k order d =
 (** val gip_sym : ops -> car list -> nat -> car list -> car **)
 
 let gip_sym k v order d =
-  fsum k (map2 (fun vc dc -> k.omul vc (fpow k dc order)) v d)
+  fsum k (map2 (fun vc dc0 -> k.omul vc (fpow k dc0 order)) v d)
 
 (** val poly_sym : ops -> car list -> car list -> car **)
 
@@ -1605,15 +1615,15 @@ let ones k d =
     ops -> bool -> bool -> car -> car -> car -> car list -> car **)
 
 let sym_kdv k advect_over_diffuse diffuse_over_diffuse nu xi mu d =
-  let lap = laplace_sym k (S (S O)) d in
+  let lap0 = laplace_sym k (S (S O)) d in
   let vel = map (fun o -> k.omul xi o) (ones k d) in
   k.oadd
-    (k.oadd (k.omul nu lap)
+    (k.oadd (k.omul nu lap0)
       (if advect_over_diffuse
-       then k.omul (k.oopp (gip_sym k vel (S O) d)) lap
+       then k.omul (k.oopp (gip_sym k vel (S O) d)) lap0
        else k.oopp (gip_sym k vel (S (S (S O))) d)))
     (if diffuse_over_diffuse
-     then k.omul (k.omul (k.oopp mu) lap) lap
+     then k.omul (k.omul (k.oopp mu) lap0) lap0
      else k.omul (k.oopp mu) (laplace_sym k (S (S (S (S O)))) d))
 
 (** val sym_ks : ops -> car -> car -> car list -> car **)
@@ -1835,8 +1845,8 @@ let wn_1d xy d n c j =
 
 (** val wavenumber : bool -> nat -> z -> nat -> z list -> z **)
 
-let wavenumber xy d n c idx =
-  wn_1d xy d n c (nth (mesh_axis xy d c) idx Z0)
+let wavenumber xy d n c idx0 =
+  wn_1d xy d n c (nth (mesh_axis xy d c) idx0 Z0)
 
 (** val wn_axis_len : bool -> nat -> z -> nat -> z **)
 
@@ -1853,18 +1863,18 @@ let wavenumber_shape d n =
 
 (** val wn : nat -> z -> nat -> z list -> z **)
 
-let wn d n c idx =
-  wavenumber false d n c idx
+let wn d n c idx0 =
+  wavenumber false d n c idx0
 
 (** val wnvec : nat -> z -> z list -> z list **)
 
-let wnvec d n idx =
-  map (fun c -> wn d n c idx) (seq O d)
+let wnvec d n idx0 =
+  map (fun c -> wn d n c idx0) (seq O d)
 
 (** val low_pass_axis : nat -> z -> z -> z list -> bool **)
 
-let low_pass_axis d n cutoff idx =
-  forallb (fun k -> Z.leb (Z.abs k) cutoff) (wnvec d n idx)
+let low_pass_axis d n cutoff idx0 =
+  forallb (fun k -> Z.leb (Z.abs k) cutoff) (wnvec d n idx0)
 
 (** val norm2 : z list -> z **)
 
@@ -1873,17 +1883,18 @@ let norm2 k =
 
 (** val low_pass_radial : nat -> z -> z -> z list -> bool **)
 
-let low_pass_radial d n cutoff idx =
-  (&&) (Z.leb Z0 cutoff) (Z.leb (norm2 (wnvec d n idx)) (Z.mul cutoff cutoff))
+let low_pass_radial d n cutoff idx0 =
+  (&&) (Z.leb Z0 cutoff)
+    (Z.leb (norm2 (wnvec d n idx0)) (Z.mul cutoff cutoff))
 
 (** val oddball_mask : nat -> z -> z list -> bool **)
 
-let oddball_mask d n idx =
+let oddball_mask d n idx0 =
   if Z.odd n
   then true
   else low_pass_axis d n
          (Z.sub (Z.sub (Z.add (Z.div n (Zpos (XO XH))) (Zpos XH)) (Zpos XH))
-           (Zpos XH)) idx
+           (Zpos XH)) idx0
 
 (** val axis_plain : z -> z -> bool -> bool **)
 
@@ -1896,11 +1907,11 @@ let axis_plain n k is_rfft_axis =
 
 (** val scaling_halvings : nat -> z -> z -> z -> z list -> z **)
 
-let scaling_halvings d n dr dother idx =
+let scaling_halvings d n dr dother idx0 =
   fold_right Z.add Z0
     (map (fun c ->
       let last = Nat.eqb c (sub d (S O)) in
-      if axis_plain n (wn d n c idx) last
+      if axis_plain n (wn d n c idx0) last
       then Z0
       else if Z.eqb (if last then dr else dother) (Zpos (XO XH))
            then Zpos XH
@@ -1971,6 +1982,310 @@ let wrap_index n j =
 
 let dealias_keeps p q0 n k =
   Z.leb (Z.mul q0 (Z.abs k)) (Z.sub (Z.mul p (Z.div n (Zpos (XO XH)))) q0)
+
+(** val dealias_K : z -> z -> z -> z **)
+
+let dealias_K p q0 n =
+  Z.sub (Z.div (Z.mul p (Z.div n (Zpos (XO XH)))) q0) (Zpos XH)
+
+type idx = z list
+
+(** val wrap1 : z -> z -> z **)
+
+let wrap1 n x =
+  fftfreq n (Z.modulo x n)
+
+(** val wrapD : z -> idx -> idx **)
+
+let wrapD n x =
+  map (wrap1 n) x
+
+(** val in_band : z -> idx -> bool **)
+
+let in_band kc x =
+  forallb (fun c -> Z.leb (Z.abs c) kc) x
+
+(** val subi : idx -> idx -> idx **)
+
+let subi a b =
+  map2 Z.sub a b
+
+(** val zrange_from : z -> nat -> z list **)
+
+let rec zrange_from lo = function
+| O -> []
+| S m -> lo :: (zrange_from (Z.add lo (Zpos XH)) m)
+
+(** val zrange : z -> z -> z list **)
+
+let zrange lo hi =
+  zrange_from lo (Z.to_nat (Z.add (Z.sub hi lo) (Zpos XH)))
+
+(** val bandD : nat -> z -> idx list **)
+
+let rec bandD d kc =
+  match d with
+  | O -> [] :: []
+  | S d0 ->
+    flat_map (fun c -> map (fun x -> c :: x) (bandD d0 kc))
+      (zrange (Z.opp kc) kc)
+
+(** val is_zero : idx -> bool **)
+
+let is_zero x =
+  forallb (Z.eqb Z0) x
+
+type field = idx -> car
+
+(** val msk : ops -> z -> field -> field **)
+
+let msk k kc u x =
+  if in_band kc x then u x else k.o0
+
+(** val cconv2 : ops -> nat -> z -> z -> field -> field -> field **)
+
+let cconv2 k d n kc u v k0 =
+  fsum k
+    (map (fun m -> k.omul (msk k kc u m) (msk k kc v (wrapD n (subi k0 m))))
+      (bandD d kc))
+
+(** val cconv3 : ops -> nat -> z -> z -> field -> field -> field -> field **)
+
+let cconv3 k d n kc u v w k0 =
+  fsum k
+    (map (fun m1 ->
+      fsum k
+        (map (fun m2 ->
+          k.omul (msk k kc u m1)
+            (k.omul (msk k kc v m2)
+              (msk k kc w (wrapD n (subi (subi k0 m1) m2))))) (bandD d kc)))
+      (bandD d kc))
+
+(** val nfac : ops -> nat -> z -> car **)
+
+let nfac k d n =
+  k.odiv k.o1 (fpow k (fz k n) d)
+
+(** val prod2 : ops -> nat -> z -> z -> field -> field -> field **)
+
+let prod2 k d n kc u v =
+  msk k kc (fun k0 -> k.omul (nfac k d n) (cconv2 k d n kc u v k0))
+
+(** val prod3 : ops -> nat -> z -> z -> field -> field -> field -> field **)
+
+let prod3 k d n kc u v w =
+  msk k kc (fun k0 ->
+    k.omul (k.omul (nfac k d n) (nfac k d n)) (cconv3 k d n kc u v w k0))
+
+(** val dc : ops -> car -> car -> nat -> field **)
+
+let dc k ii s c k0 =
+  k.omul ii (k.omul s (fz k (nth c k0 Z0)))
+
+(** val fmulp : ops -> field -> field -> field **)
+
+let fmulp k a b k0 =
+  k.omul (a k0) (b k0)
+
+(** val fscal : ops -> car -> field -> field **)
+
+let fscal k x a k0 =
+  k.omul x (a k0)
+
+(** val fadd : ops -> field -> field -> field **)
+
+let fadd k a b k0 =
+  k.oadd (a k0) (b k0)
+
+(** val fzero : ops -> field **)
+
+let fzero k _ =
+  k.o0
+
+(** val fsumf : ops -> field list -> field **)
+
+let fsumf k l k0 =
+  fsum k (map (fun f -> f k0) l)
+
+(** val axes : nat -> nat list **)
+
+let axes d =
+  seq O d
+
+(** val half : ops -> car **)
+
+let half k =
+  k.odiv k.o1 (fz k (Zpos (XO XH)))
+
+(** val lap : ops -> car -> car -> nat -> field **)
+
+let lap k ii s d k0 =
+  fsum k (map (fun c -> k.omul (dc k ii s c k0) (dc k ii s c k0)) (axes d))
+
+(** val delta0 : ops -> field **)
+
+let delta0 k k0 =
+  if is_zero k0 then k.o1 else k.o0
+
+(** val conv_mc_cons :
+    ops -> (field -> field -> field) -> car -> car -> nat -> car -> field
+    list -> field list **)
+
+let conv_mc_cons k p2 ii s d b u =
+  map (fun ui ->
+    fscal k (k.oopp b)
+      (fscal k (half k)
+        (fsumf k
+          (map2 (fun c uj -> fmulp k (dc k ii s c) (p2 ui uj)) (axes d) u))))
+    u
+
+(** val conv_mc_noncons :
+    ops -> (field -> field -> field) -> car -> car -> nat -> car -> field
+    list -> field list **)
+
+let conv_mc_noncons k p2 ii s d b u =
+  map (fun ui ->
+    fscal k (k.oopp b)
+      (fsumf k
+        (map2 (fun c uj -> p2 uj (fmulp k (dc k ii s c) ui)) (axes d) u))) u
+
+(** val conv_sc_cons :
+    ops -> (field -> field -> field) -> car -> car -> nat -> car -> field ->
+    field **)
+
+let conv_sc_cons k p2 ii s d b u =
+  fscal k (k.oopp b)
+    (fscal k (half k) (fmulp k (fsumf k (map (dc k ii s) (axes d))) (p2 u u)))
+
+(** val conv_sc_noncons :
+    ops -> (field -> field -> field) -> car -> car -> nat -> car -> field ->
+    field **)
+
+let conv_sc_noncons k p2 ii s d b u =
+  fscal k (k.oopp b)
+    (fsumf k (map (fun c -> p2 u (fmulp k (dc k ii s c) u)) (axes d)))
+
+(** val gradient_norm :
+    ops -> (field -> field -> field) -> car -> car -> nat -> car -> bool ->
+    field -> field **)
+
+let gradient_norm k p2 ii s d b zero_fix u =
+  let g =
+    fsumf k
+      (map (fun c -> p2 (fmulp k (dc k ii s c) u) (fmulp k (dc k ii s c) u))
+        (axes d))
+  in
+  let g' =
+    if zero_fix then (fun k0 -> if is_zero k0 then k.o0 else g k0) else g
+  in
+  fscal k (k.oopp b) (fscal k (half k) g')
+
+(** val polynomial :
+    ops -> (field -> field) -> (field -> field -> field) -> (field -> field
+    -> field -> field) -> car -> car -> car -> car -> car -> field -> field **)
+
+let polynomial k m p2 p3 nD c2 c3 c4 c5 u k0 =
+  k.oadd
+    (k.oadd
+      (k.oadd (k.omul (k.omul c2 nD) (delta0 k k0)) (k.omul c3 (m (m u) k0)))
+      (k.omul c4 (p2 u u k0))) (k.omul c5 (p3 u u u k0))
+
+(** val general_nonlinear :
+    ops -> (field -> field) -> (field -> field -> field) -> (field -> field
+    -> field -> field) -> car -> car -> nat -> car -> car -> car -> car ->
+    bool -> field -> field **)
+
+let general_nonlinear k m p2 p3 ii s d nD b0 b1 b2 zero_fix u =
+  fadd k
+    (fadd k (polynomial k m p2 p3 nD k.o0 k.o0 b0 k.o0 u)
+      (conv_sc_cons k p2 ii s d (k.oopp b1) u))
+    (gradient_norm k p2 ii s d (k.oopp b2) zero_fix u)
+
+(** val inv_lap_one : ops -> car -> car -> nat -> field **)
+
+let inv_lap_one k ii s d k0 =
+  if k.oeqb (lap k ii s d k0) k.o0
+  then k.o1
+  else k.odiv k.o1 (lap k ii s d k0)
+
+(** val vorticity_conv :
+    ops -> (field -> field -> field) -> car -> car -> nat -> car -> field ->
+    field **)
+
+let vorticity_conv k p2 ii s d b w =
+  let psi = fmulp k (inv_lap_one k ii s d) w in
+  let uh = fmulp k (dc k ii s (S O)) psi in
+  let vh = fscal k (k.oopp k.o1) (fmulp k (dc k ii s O) psi) in
+  fscal k (k.oopp b)
+    (fadd k (p2 uh (fmulp k (dc k ii s O) w))
+      (p2 vh (fmulp k (dc k ii s (S O)) w)))
+
+(** val inv_lap_zero : ops -> car -> car -> nat -> field **)
+
+let inv_lap_zero k ii s d k0 =
+  if k.oeqb (lap k ii s d k0) k.o0
+  then k.o0
+  else k.odiv k.o1 (lap k ii s d k0)
+
+(** val leray : ops -> car -> car -> nat -> field list -> field list **)
+
+let leray k ii s d u =
+  let div0 = fsumf k (map2 (fun c uc -> fmulp k (dc k ii s c) uc) (axes d) u)
+  in
+  let p = fscal k (k.oopp k.o1) (fmulp k (inv_lap_zero k ii s d) div0) in
+  map2 (fun c uc -> fadd k uc (fmulp k (dc k ii s c) p)) (axes d) u
+
+(** val cross :
+    ops -> (field -> field -> field) -> field list -> field list -> field list **)
+
+let cross k p a b =
+  let g = fun l i -> nth i l (fzero k) in
+  (fadd k (p (g a (S O)) (g b (S (S O))))
+    (fscal k (k.oopp k.o1) (p (g a (S (S O))) (g b (S O))))) :: ((fadd k
+                                                                   (p
+                                                                    (g a (S
+                                                                    (S O)))
+                                                                    (g b O))
+                                                                   (fscal k
+                                                                    (k.oopp
+                                                                    k.o1)
+                                                                    (p
+                                                                    (g a O)
+                                                                    (g b (S
+                                                                    (S O)))))) :: (
+  (fadd k (p (g a O) (g b (S O)))
+    (fscal k (k.oopp k.o1) (p (g a (S O)) (g b O)))) :: []))
+
+(** val curl : ops -> car -> car -> field list -> field list **)
+
+let curl k ii s u =
+  cross k (fmulp k)
+    ((dc k ii s O) :: ((dc k ii s (S O)) :: ((dc k ii s (S (S O))) :: []))) u
+
+(** val projected_conv :
+    ops -> (field -> field -> field) -> car -> car -> nat -> field list ->
+    field list **)
+
+let projected_conv k p2 ii s d u =
+  leray k ii s d (cross k p2 u (curl k ii s u))
+
+(** val cahn_hilliard :
+    ops -> (field -> field -> field -> field) -> car -> car -> nat -> car ->
+    field -> field **)
+
+let cahn_hilliard k p3 ii s d sc u =
+  fscal k sc (fmulp k (lap k ii s d) (p3 u u u))
+
+(** val gray_scott :
+    ops -> (field -> field) -> (field -> field -> field -> field) -> car ->
+    car -> car -> field -> field -> field list **)
+
+let gray_scott k m p3 nD f kr u0 u1 =
+  (fun k0 ->
+    k.osub
+      (k.osub (k.omul (k.omul f nD) (delta0 k k0)) (k.omul f (m (m u0) k0)))
+      (p3 u0 u1 u1 k0)) :: ((fun k0 ->
+    k.oadd (k.omul (k.oopp (k.oadd f kr)) (m (m u1) k0)) (p3 u0 u1 u1 k0)) :: [])
 
 (** val aff : z -> z -> z -> z **)
 
@@ -2656,7 +2971,9 @@ let run_c04 sub0 a =
                | XH ->
                  (bq
                    (dealias_keeps (z0 O) (z0 (S O)) (z0 (S (S O)))
-                     (z0 (S (S (S O)))))) :: []
+                     (z0 (S (S (S O)))))) :: ((zq
+                                                (dealias_K (z0 O) (z0 (S O))
+                                                  (z0 (S (S O))))) :: [])
                | _ -> [])
             | XH ->
               (bq (oddball_mask (n O) (z0 (S O)) (zs (skipn (S (S O)) a)))) :: [])
@@ -2668,6 +2985,106 @@ let run_c04 sub0 a =
             (zs (skipn (S (S (S (S O)))) a)))) :: [])
    | _ -> [])
 
+(** val idx_eqb : z list -> z list -> bool **)
+
+let rec idx_eqb a b =
+  match a with
+  | [] -> (match b with
+           | [] -> true
+           | _ :: _ -> false)
+  | x :: a' ->
+    (match b with
+     | [] -> false
+     | y :: b' -> (&&) (Z.eqb x y) (idx_eqb a' b'))
+
+(** val lookup : (z list * car) list -> z list -> car **)
+
+let rec lookup l k =
+  match l with
+  | [] -> Obj.magic c0 qcOps
+  | p :: r -> let (j, v) = p in if idx_eqb j k then v else lookup r k
+
+(** val run_term : q list -> q list **)
+
+let run_term a =
+  let term = qz (getq a O) in
+  let d = qn (getq a (S O)) in
+  let n = qz (getq a (S (S O))) in
+  let kc = qz (getq a (S (S (S O)))) in
+  let s = cr (getq a (S (S (S (S (S O)))))) in
+  let np = qn (getq a (S (S (S (S (S (S O))))))) in
+  let ps = firstn np (skipn (S (S (S (S (S (S (S O))))))) a) in
+  let rest = skipn (add (S (S (S (S (S (S (S O))))))) np) a in
+  let nch = qn (getq rest O) in
+  let band = bandD d kc in
+  let nb = length band in
+  let chans =
+    map (fun vs -> lookup (combine band vs))
+      (chunks nb nch (take_cx (skipn (S O) rest)))
+  in
+  let g = fun i -> cr (getq ps i) in
+  let m = msk cQ kc in
+  let p2 = prod2 cQ d n kc in
+  let p3 = prod3 cQ d n kc in
+  let nD = fpow cQ (cq_of_z n) d in
+  let ch = fun i -> nth i chans (fzero cQ) in
+  let outs =
+    match term with
+    | Z0 -> []
+    | Zpos p ->
+      (match p with
+       | XI p0 ->
+         (match p0 with
+          | XI p1 ->
+            (match p1 with
+             | XI _ -> []
+             | XO p4 ->
+               (match p4 with
+                | XI _ -> []
+                | XO _ -> []
+                | XH ->
+                  gray_scott cQ m p3 nD (g O) (g (S O)) (ch O) (ch (S O)))
+             | XH ->
+               (general_nonlinear cQ m p2 p3 ciQ s d nD (g O) (g (S O))
+                 (g (S (S O))) (qb (getq ps (S (S (S O))))) (ch O)) :: [])
+          | XO p1 ->
+            (match p1 with
+             | XI _ -> []
+             | XO p4 ->
+               (match p4 with
+                | XH -> projected_conv cQ p2 ciQ s d chans
+                | _ -> [])
+             | XH ->
+               (gradient_norm cQ p2 ciQ s d (g O) (qb (getq ps (S O))) (ch O)) :: [])
+          | XH -> (conv_sc_cons cQ p2 ciQ s d (g O) (ch O)) :: [])
+       | XO p0 ->
+         (match p0 with
+          | XI p1 ->
+            (match p1 with
+             | XI _ -> []
+             | XO p4 ->
+               (match p4 with
+                | XH -> (cahn_hilliard cQ p3 ciQ s d (g O) (ch O)) :: []
+                | _ -> [])
+             | XH ->
+               (polynomial cQ m p2 p3 nD (g O) (g (S O)) (g (S (S O)))
+                 (g (S (S (S O)))) (ch O)) :: [])
+          | XO p1 ->
+            (match p1 with
+             | XI p4 -> (match p4 with
+                         | XH -> leray cQ ciQ s d chans
+                         | _ -> [])
+             | XO p4 ->
+               (match p4 with
+                | XH -> (vorticity_conv cQ p2 ciQ s d (g O) (ch O)) :: []
+                | _ -> [])
+             | XH -> (conv_sc_noncons cQ p2 ciQ s d (g O) (ch O)) :: [])
+          | XH -> conv_mc_noncons cQ p2 ciQ s d (g O) chans)
+       | XH -> conv_mc_cons cQ p2 ciQ s d (g O) chans)
+    | Zneg _ -> []
+  in
+  put_cx (flat_map (fun f -> map f band) outs)
+
 (** val run : z -> q list -> q list **)
 
 let run id a =
@@ -2677,6 +3094,7 @@ let run id a =
      (match p with
       | XI p0 ->
         (match p0 with
+         | XI _ -> []
          | XO p1 ->
            (match p1 with
             | XI p2 ->
@@ -2689,7 +3107,12 @@ let run id a =
                   | _ -> [])
                | _ -> [])
             | _ -> [])
-         | _ -> [])
+         | XH ->
+           (match sub0 with
+            | Zpos p1 -> (match p1 with
+                          | XH -> run_term a
+                          | _ -> [])
+            | _ -> []))
       | XO p0 ->
         (match p0 with
          | XI p1 ->
